@@ -295,7 +295,18 @@ func RunC20(ctx *core.Ctx) *core.Violation {
 	if !interFirst {
 		runSolo1()
 	}
+	if InnerYields {
+		// instrumented build: each task is also preempted inside library calls, at every
+		// period-th function entry / loop iteration (period drawn per task)
+		periods := make([]int, n)
+		for i := range periods {
+			periods[i] = t.Pick(1, 3, 17, 64, 250, 1000, 4000)
+		}
+		sched.SetInnerPeriods(periods)
+		ctx.Count("probe_inner_yield_runs")
+	}
 	sr := sched.Run(t, bodies)
+	sched.SetInnerPeriods(nil)
 	if sr.Stuck != "" {
 		panic("harness: scheduler watchdog: " + sr.Stuck)
 	}
@@ -307,7 +318,10 @@ func RunC20(ctx *core.Ctx) *core.Violation {
 		ctx.L.Ev("solo", int64(i), int64(hashBytes(solo1[i])>>1))
 	}
 	for _, ev := range sr.Schedule {
-		ctx.L.Ev("sched", int64(ev>>8), int64(ev&0xff))
+		// the schedule is part of the full digest (exact replay), not of the operation digest:
+		// with yields inside library calls it depends on how many calls the library makes,
+		// which legitimately varies with internal state (a warm pool, a filled cache)
+		ctx.L.EvDev("sched", int64(ev>>8), int64(ev&0xff))
 	}
 	solo2 := make([][]byte, n)
 	for i := n - 1; i >= 0; i-- {
